@@ -103,6 +103,25 @@ func (a Aff) String() string {
 	return sb.String()
 }
 
+// SymAccess is one index or slice operation evaluated on the path.
+type SymAccess struct {
+	Base   string
+	Idx    *Aff // index (element access)
+	Lo, Hi *Aff // slice bounds (nil = omitted)
+	Node   ast.Expr
+	At     int
+	Store  bool
+	IsArr  int64 // >0: fixed array of this length
+}
+
+func (e *SymEnv) logAccess(a SymAccess) {
+	if e.Acc == nil {
+		return
+	}
+	a.At = e.curEv
+	*e.Acc = append(*e.Acc, a)
+}
+
 // SymCond is a comparison met on the path, with the polarity taken.
 type SymCond struct {
 	L, R  Aff
@@ -150,9 +169,14 @@ type SymEnv struct {
 	names  map[types.Object]string
 	namedResults []types.Object
 	makes  map[string][2]Aff
+	wraps  map[string][2]Aff // wrapadd atom -> its two operands
+	slens  map[string]Aff    // slice-expression atom -> its length
 	copies map[string]string // fresh slice atom -> source whose content it received at creation
+	Acc    *[]SymAccess      // log of index/slice accesses (shared between clones of one path)
+	curEv  int
 	nCall  int
 	Hook   func(i int, ev Ev, sp *SymPath) // called before each event is executed
+	WrapAware bool     // treat uint64 additions of two untrusted 64-bit values as opaque (they may wrap)
 	Self   *types.Func // the function being analysed: a self-recursive call is a re-dispatch, its effects are not applied
 	// Inline, when set, is asked for a summary of a package-local call; it returns true if it handled the call.
 	OnCall func(env *SymEnv, call *ast.CallExpr, name string) (Aff, bool)
@@ -180,9 +204,13 @@ func (e *SymEnv) clone() *SymEnv {
 	n.namedResults = e.namedResults
 	n.makes = e.makes
 	n.copies = e.copies
+	n.wraps = e.wraps
+	n.slens = e.slens
+	n.Acc = e.Acc
 	n.OnCall = e.OnCall
 	n.Self = e.Self
 	n.Hook = e.Hook
+	n.WrapAware = e.WrapAware
 	return n
 }
 
@@ -277,26 +305,72 @@ func (e *SymEnv) Eval(x ast.Expr) Aff {
 				return a
 			}
 			// a path rooted at a local with a known struct value: substitute the root
-			return affAtom(e.substRoot(path, v))
+			sub := e.substRoot(path, v)
+			if a, ok := e.fields[sub]; ok {
+				return a
+			}
+			return affAtom(sub)
 		}
 	case *ast.IndexExpr:
 		base := e.Eval(v.X).String()
 		idx := e.Eval(v.Index)
 		key := base + "[" + idx.String() + "]"
+		if _, isMap := p.Info.TypeOf(v.X).Underlying().(*types.Map); !isMap {
+			ix := idx
+			acc := SymAccess{Base: base, Idx: &ix, Node: v}
+			if at, ok := p.Info.TypeOf(v.X).Underlying().(*types.Array); ok {
+				acc.IsArr = at.Len()
+			} else if pt, ok := p.Info.TypeOf(v.X).Underlying().(*types.Pointer); ok {
+				if at, ok := pt.Elem().Underlying().(*types.Array); ok {
+					acc.IsArr = at.Len()
+				}
+			}
+			e.logAccess(acc)
+		}
 		if a, ok := e.elems[key]; ok {
 			return a
 		}
 		return affAtom(key)
 	case *ast.SliceExpr:
-		s := e.Eval(v.X).String() + "["
+		bs := e.Eval(v.X).String()
+		s := bs + "["
+		acc := SymAccess{Base: bs, Node: v}
 		if v.Low != nil {
-			s += e.Eval(v.Low).String()
+			lo := e.Eval(v.Low)
+			acc.Lo = &lo
+			s += lo.String()
 		}
 		s += ":"
 		if v.High != nil {
-			s += e.Eval(v.High).String()
+			hi := e.Eval(v.High)
+			acc.Hi = &hi
+			s += hi.String()
 		}
-		return affAtom(s + "]")
+		if at, ok := p.Info.TypeOf(v.X).Underlying().(*types.Array); ok {
+			acc.IsArr = at.Len()
+		}
+		e.logAccess(acc)
+		s += "]"
+		// remember the length of the result
+		if e.slens == nil {
+			e.slens = map[string]Aff{}
+		}
+		lo := affK(0)
+		if acc.Lo != nil {
+			lo = *acc.Lo
+		}
+		var hi Aff
+		if acc.Hi != nil {
+			hi = *acc.Hi
+		} else if mk, ok := e.makes[bs]; ok {
+			hi = mk[0]
+		} else if l, ok := e.slens[bs]; ok {
+			hi = l
+		} else {
+			hi = affAtom("len(" + bs + ")")
+		}
+		e.slens[s] = hi.Add(lo, -1)
+		return affAtom(s)
 	case *ast.UnaryExpr:
 		switch v.Op {
 		case token.SUB:
@@ -320,6 +394,18 @@ func (e *SymEnv) Eval(x ast.Expr) Aff {
 		switch v.Op {
 		case token.ADD:
 			if isIntegerType(p.Info.TypeOf(v)) {
+				if e.WrapAware && isUint64(p.Info.TypeOf(v)) && hasWideAtom(l) && hasWideAtom(r) {
+					ls, rs := l.String(), r.String()
+					if ls > rs {
+						ls, rs = rs, ls
+					}
+					at := "wrapadd(" + ls + "," + rs + ")"
+					if e.wraps == nil {
+						e.wraps = map[string][2]Aff{}
+					}
+					e.wraps[at] = [2]Aff{l, r}
+					return affAtom(at)
+				}
 				return l.Add(r, 1)
 			}
 		case token.SUB:
@@ -372,6 +458,14 @@ func (e *SymEnv) Eval(x ast.Expr) Aff {
 					return mk[0]
 				}
 				return mk[1]
+			}
+			if name == "len" {
+				if l, ok := e.slens[arg.String()]; ok {
+					return l
+				}
+				if l, ok := sliceLen(e, arg.String()); ok {
+					return l
+				}
 			}
 			return affAtom(name + "(" + arg.String() + ")")
 		}
@@ -502,6 +596,14 @@ func (e *SymEnv) Assign(lhs ast.Expr, val Aff) (target string, base string, idx 
 	case *ast.IndexExpr:
 		b := e.Eval(v.X).String()
 		i := e.Eval(v.Index)
+		if _, isMap := e.p.Info.TypeOf(v.X).Underlying().(*types.Map); !isMap {
+			ix := i
+			acc := SymAccess{Base: b, Idx: &ix, Node: v, Store: true}
+			if at, ok := e.p.Info.TypeOf(v.X).Underlying().(*types.Array); ok {
+				acc.IsArr = at.Len()
+			}
+			e.logAccess(acc)
+		}
 		e.elems[b+"["+i.String()+"]"] = val
 		return b + "[" + i.String() + "]", b, &i
 	default:
@@ -542,6 +644,7 @@ func (e *SymEnv) SetField(path string, v Aff) { e.fields[path] = v }
 func (p *GoProg) ExecPath(pa *Path, env *SymEnv) *SymPath {
 	sp := &SymPath{Path: pa, Env: env}
 	for i, ev := range pa.Evs {
+		env.curEv = i
 		if env.Hook != nil {
 			env.Hook(i, ev, sp)
 		}
@@ -653,6 +756,10 @@ func (p *GoProg) execAssign(sp *SymPath, env *SymEnv, s *ast.AssignStmt, at int)
 			}
 			t, b, ix := env.Assign(l, v)
 			sp.Effects = append(sp.Effects, SymEffect{Kind: "store", Target: t, Base: b, Index: ix, Val: v, Node: s, At: at})
+			// a (pointer to a) struct literal: its fields are known
+			if s.Tok == token.ASSIGN || s.Tok == token.DEFINE {
+				p.bindLiteralFields(env, t, s.Rhs[k])
+			}
 		}
 		return
 	}
@@ -1089,4 +1196,78 @@ func (e *SymEnv) SetLocal(fd *ast.FuncDecl, name string, v Aff) bool {
 		return true
 	})
 	return found
+}
+
+
+func isUint64(t types.Type) bool {
+	b, ok := t.Underlying().(*types.Basic)
+	return ok && (b.Kind() == types.Uint64 || b.Kind() == types.Uintptr || b.Kind() == types.Uint)
+}
+
+// hasWideAtom: the value contains an atom that is an arbitrary 64-bit quantity (tape word, decoded value bytes, uint64 parameter).
+func hasWideAtom(a Aff) bool {
+	for at := range a.T {
+		if isWideAtom(at) {
+			return true
+		}
+	}
+	return false
+}
+
+func isWideAtom(at string) bool {
+	switch {
+	case strings.HasPrefix(at, "(encoding/binary.littleEndian).Uint64("):
+		return true
+	case strings.HasPrefix(at, "P:offset"), strings.HasPrefix(at, "P:length"):
+		return true
+	case strings.Contains(at, ".Tape[") && !strings.HasPrefix(at, "len("):
+		return true
+	case strings.HasPrefix(at, "(72057594037927935&"), strings.HasPrefix(at, "(36028797018963967&"):
+		return true
+	case strings.HasSuffix(at, ".cur"):
+		return true
+	}
+	return false
+}
+
+
+// bindLiteralFields records target.<field> for every field of a struct literal (or pointer to one) assigned to target.
+func (p *GoProg) bindLiteralFields(env *SymEnv, target string, rhs ast.Expr) {
+	rhs = ast.Unparen(rhs)
+	if u, ok := rhs.(*ast.UnaryExpr); ok && u.Op == token.AND {
+		rhs = ast.Unparen(u.X)
+	}
+	lit, ok := rhs.(*ast.CompositeLit)
+	if !ok || strings.HasPrefix(target, "?") || target == "_" {
+		return
+	}
+	st, ok := p.Info.TypeOf(lit).Underlying().(*types.Struct)
+	if !ok {
+		return
+	}
+	seen := map[string]bool{}
+	for i, el := range lit.Elts {
+		if kv, ok := el.(*ast.KeyValueExpr); ok {
+			if id, ok := kv.Key.(*ast.Ident); ok {
+				env.fields[target+"."+id.Name] = env.Eval(kv.Value)
+				seen[id.Name] = true
+				p.bindLiteralFields(env, target+"."+id.Name, kv.Value)
+			}
+			continue
+		}
+		if i < st.NumFields() {
+			env.fields[target+"."+st.Field(i).Name()] = env.Eval(el)
+			seen[st.Field(i).Name()] = true
+		}
+	}
+	for i := 0; i < st.NumFields(); i++ {
+		f := st.Field(i)
+		if !seen[f.Name()] {
+			if isIntegerType(f.Type()) {
+				env.fields[target+"."+f.Name()] = affK(0)
+			} else {
+				env.fields[target+"."+f.Name()] = affAtom("nil")
+			}
+		}
+	}
 }
